@@ -439,6 +439,8 @@ def symbolic_args(f: FunctionInfo, it: Interp, clean=UNKNOWN):
             args[p] = Lst(None, Sym(clean), ())
         elif p == "mask" and clean is UNKNOWN:
             args[p] = Sym((UNK, frozenset([BOOLMASK]), E))  # documented as an array of booleans
+        elif clean is UNKNOWN and p in f.defaults and isinstance(f.defaults[p], ast.Constant) and isinstance(f.defaults[p].value, (int, float)) and not isinstance(f.defaults[p].value, bool):
+            args[p] = Sym(PYNUM)  # an option whose default is a Python number is a Python number (weak)
         else:
             args[p] = Sym(clean)
     return args
